@@ -339,10 +339,11 @@ def jobs(tier, gen_dir):
     return out
 
 
-TRUSTED = ["std::max_element / std::min_element deliver the largest / smallest input value (mx, mn are parameters of the kernel)",
+TRUSTED = ["BasicCoordinate arithmetic is component-wise (C3F/C3I helpers in contracts/c10g.h); the header writer's callees that receive the stream insert values and leave its format state alone",
+           "std::max_element / std::min_element deliver the largest / smallest input value (mx, mn are parameters of the kernel)",
            "input element type float, scale factor type float (the instantiation used by the image writers); IEEE-754 round-to-nearest"]
 ASSUMPTIONS = []
-UNDECIDED_CLAUSES = ["file and header paths (Interfile keyword parsing and writing, voxel positions, exam information other than the reader's radionuclide block, truncated data files)",
+UNDECIDED_CLAUSES = ["Interfile keyword parsing (KeyParser), exam information other than the radionuclide block, truncated data files; that the voxel-position arithmetic round-trips up to rounding (only which operands enter it is decided)",
                      "dynamic / parametric containers", "float output types (copied, no quantisation)"]
 
 
